@@ -32,8 +32,8 @@ CLAIMED = {
     ),
     "C14": dict(
         technique="trace predicates over all abstract paths of Gateway.logic, Gateway.alert and the two stop() methods (path-sensitive interpretation), plus a who-may-write scan of the dirty flag",
-        text="On every abstract path of every registry handler (all versions, MQTT/TCP overrides) a persisted mutation is followed by alert(); every path through alert() stores need_save = True unless persistence is off, including the path where the callback raised; both stop() methods, with persistence on, disconnect, cancel a pending save and then call save_sensors exactly once on every path; the flag is cleared only as the last statement of save_sensors and the skip test reads only the flag.",
-        note="Trusted: sa/effects.py (persisted projection = keys the JSON encoder writes + map insertions), sa/extmodel.py. Not decided: the cross-thread window between the end of serialisation and the flag store.",
+        text="On every abstract path of every registry handler (all versions, MQTT/TCP overrides) a persisted mutation is followed by alert(); every path through alert() stores need_save = True unless persistence is off, including the path where the callback raised; both stop() methods, with persistence on, disconnect, cancel a pending save and then call save_sensors exactly once on every path; the flag is cleared only by save_sensors - once, before the state is read (a report handled by the pump thread during the write marks it again; D15), set again on every failing path, untouched by a skipped save - a save is skipped only when the state is clean or the location not writable, and the skip test reads only the flag.",
+        note="Trusted: sa/effects.py (persisted projection = keys the JSON encoder writes + map insertions), sa/extmodel.py. The lost-update window on the dirty flag is decided as an ordering fact (no clearing store after the dump has begun). Not decided: two overlapping saves (a final save starting while a periodic one is still writing).",
         ref="DESIGN.md section 4 C14",
     ),
     "C07": dict(
@@ -80,7 +80,7 @@ CLAIMED = {
     ),
     "C12": dict(
         technique="trace predicates over all abstract paths (normal and one exceptional path per fallible file operation) of save_sensors and safe_load_sensors for both formats, with the name-pattern dispatch resolved; open-mode scan",
-        text="The temp-write / fsync / move-aside / move-in / drop-old protocol is decided on every path: only the temp name (different from main and backup) is opened for writing; dump, flush, fsync(fileno) happen in that order on the same handle inside the with block; every rename/remove follows the completed temp write; the temp file is moved onto the main file exactly once; a move-aside of the old main precedes it and the backup's removal follows it, both under one condition; nothing else is removed; the dirty flag is cleared last; on every path where a file operation fails the flag is not cleared and the error propagates; the loader tries the backup exactly when the main load failed and promotes it by rename before reading. Under this protocol every crash point leaves a complete old or new file.",
+        text="The temp-write / fsync / move-aside / move-in / drop-old protocol is decided on every path: only the temp name (different from main and backup) is opened for writing; dump, flush, fsync(fileno) happen in that order on the same handle inside the with block; every rename/remove follows the completed temp write; the temp file is moved onto the main file exactly once; a move-aside of the old main precedes it and the backup's removal follows it, both under one condition; nothing else is removed; the dirty flag is cleared once before the state is read and on every path where a file operation fails it is set again and the error propagates; a write error is not swallowed before the move-in; a lock taken by the save is released on every exit; the tested directory comes from an absolute path; saving does not update the live map; the loader tries the backup exactly when the main load failed and promotes it by rename before reading. Under this protocol every crash point leaves a complete old or new file.",
         note="Assumed: POSIX rename atomicity; durability of renames without a directory fsync and Windows rename-over-existing are not decided. The protocol is stated over the operations that exist, so an equivalent protocol (one os.replace) passes.",
         ref="DESIGN.md section 4 C12",
     ),
